@@ -5,7 +5,7 @@ open Lean PdeVerif PdeVerif.Interrupts PdeVerif.Controller
 
 /-
 c07.run (also used by C08)
-{"mode":"Q"|"F", "dt":x, "t_start":x, "t_end":x, "eps":x, "u0":x, "eq":"one"|"time"|"timeshift" (+"shift":x),
+{"mode":"Q"|"F", ["stepper":"exact","fuel":n,] "dt":x, "t_start":x, "t_end":x, "eps":x, "u0":x, "eq":"one"|"time"|"timeshift" (+"shift":x),
  "trackers":[{"kind":"callback"|"storage"|"data",
               "sched":{"kind":"constant","dt":x,"t_start":null|x}
                      |{"kind":"logarithmic","dt_initial":x,"factor":x,"t_start":null|x}
@@ -90,7 +90,12 @@ def runJson (getK : Json → Except String K) (putK : K → Json) (j : Json) : E
       pure (fun u t => u + dt * (t + c))
     | s => throw s!"unknown equation {s}")
   let specs ← getL (parseTracker getK) (← fld j "trackers")
-  let r := runSpec dt tStart tEnd eps step u0 specs
+  let exact := (match fldOpt j "stepper" with | some (.str "exact") => true | _ => false)
+  -- exact steppers (ScipySolver): the compared state is that of u' = 1, `flow u t s = u + (s - t)`
+  let fuel : Nat ← (if exact then fldN j "fuel" else pure 0)
+  let r := if exact then
+      runExactSpec dt tStart tEnd eps (fun u t s => u + (s - t)) u0 specs fuel
+    else runSpec dt tStart tEnd eps step u0 specs
   if r.trackers.any (fun tr => isBroken tr.sched) then throw "geometric search out of fuel"
   let putO : Option K → Json := fun o => match o with | none => Json.str "inf" | some x => putK x
   pure (Json.mkObj [
